@@ -1048,11 +1048,7 @@ impl ExtensionStore {
             HashMap<SimpleSelector, IndexMap<ComplexSelector, Extension>>,
         > = None;
         for extension in extensions {
-            let mut sources = self
-                .extensions
-                .get(&extension.target.clone().unwrap())
-                .unwrap()
-                .clone();
+            let target = extension.target.clone().unwrap();
 
             // `extend_existing_selectors` would have thrown already.
             let selectors: Vec<ComplexSelector> = if let Some(v) = self.extend_complex(
@@ -1076,7 +1072,7 @@ impl ExtensionStore {
 
             let contains_extension = selectors.first() == Some(&extension.extender);
 
-            let mut first = false;
+            let mut first = true;
             for complex in selectors {
                 // If the output contains the original complex selector, there's no
                 // need to recreate it.
@@ -1086,16 +1082,14 @@ impl ExtensionStore {
                 }
 
                 let with_extender = extension.clone().with_extender(complex.clone());
-                let existing_extension = sources.get(&complex);
-                if let Some(existing_extension) = existing_extension.cloned() {
-                    sources.get_mut(&complex).replace(
-                        &mut MergedExtension::merge(existing_extension.clone(), with_extender)
-                            .unwrap(),
-                    );
+                // the derived extension is recorded in the store itself (not in a copy), so
+                // that rules seen later are extended through it as well
+                let sources = self.extensions.get_mut(&target).unwrap();
+                if let Some(existing_extension) = sources.get(&complex).cloned() {
+                    let merged = MergedExtension::merge(existing_extension, with_extender).unwrap();
+                    sources.insert(complex, merged);
                 } else {
-                    sources
-                        .get_mut(&complex)
-                        .replace(&mut with_extender.clone());
+                    sources.insert(complex.clone(), with_extender.clone());
 
                     for component in complex.components.clone() {
                         if let ComplexSelectorComponent::Compound(component) = component {
@@ -1108,10 +1102,10 @@ impl ExtensionStore {
                         }
                     }
 
-                    if new_extensions.contains_key(&extension.target.clone().unwrap()) {
+                    if new_extensions.contains_key(&target) {
                         additional_extensions
                             .get_or_insert_with(HashMap::new)
-                            .entry(extension.target.clone().unwrap())
+                            .entry(target.clone())
                             .or_insert_with(IndexMap::new)
                             .insert(complex.clone(), with_extender.clone());
                     }
@@ -1122,7 +1116,10 @@ impl ExtensionStore {
             // version.
             if !contains_extension {
                 // todo: evaluate whether we could get away with swap_remove
-                sources.shift_remove(&extension.extender);
+                self.extensions
+                    .get_mut(&target)
+                    .unwrap()
+                    .shift_remove(&extension.extender);
             }
         }
         additional_extensions
